@@ -762,16 +762,48 @@ def s8_archetype_claims(prog):
             once('unfiltered', None, 'a (identifier, claims) pair is produced for an archetype that was not found to match the task filter')
         if not (isinstance(arch, tuple) and pathsem.mentions(arch, lambda t: pathsem.is_field_of(t, 'query::result::archetype_claims::ArchetypeClaims', ai))):
             once('other-archetype', None, 'the identifier returned is not that of an archetype taken from the archetype iterator')
-        me = [e for e in p.calls(lambda e: e['name'] == 'merge_unchecked') if claims is not None and e['ret'] == S(claims)]
-        srcs = set()
-        for e in (me[:1] if claims is not None else [{'vals': (c1, c2)}]):
-            for v_ in e['vals']:
+        def sources(q, vals):
+            out = set()
+            for v_ in vals:
                 v_ = S(v_)
-                for c in p.calls(lambda c: c['name'] == 'claims' and c['ret'] == v_):
+                for c in q.calls(lambda c: c['name'] == 'claims' and c['ret'] == v_):
                     names = set()
                     for a_ in c['f'].get('args', []):
                         names |= set(ty_params(a_))
-                    srcs.add('entry' if 'EntryViews' in names else ('views' if 'Views' in names else '?'))
+                    out.add('entry' if 'EntryViews' in names else ('views' if 'Views' in names else '?'))
+            return out
+        srcs = set()
+        if claims is None:
+            srcs = sources(p, (c1, c2))
+        else:
+            me = [e for e in p.calls(lambda e: e['name'] == 'merge_unchecked') if e['ret'] == S(claims)]
+            if me:
+                srcs = sources(p, me[0]['vals'])
+            else:
+                # the claims are the same for every archetype: they may be computed once, when the list is made, and
+                # handed out as copies of that field
+                c_ = S(claims)
+                while isinstance(c_, tuple) and c_[0] == 'call' and c_[1].rsplit('::', 1)[-1] == 'clone' and c_[2]:
+                    c_ = S(c_[2][0])
+                ADT = 'query::result::archetype_claims::ArchetypeClaims'
+                if isinstance(c_, tuple) and c_[0] == 'f' and isinstance(c_[3], str) and c_[3].endswith('ArchetypeClaims') and S(c_[1]) in (('p', 1, f.body.local_name(1) or 'self'), ('d', ('p', 1, f.body.local_name(1) or 'self'))):
+                    k_ = c_[2]
+                    from .rules_guard import aggregates_of
+                    makers = {fn.dp: fn for fn, b_, i_, s_ in aggregates_of(prog, ADT)}
+                    per = []
+                    for mk in makers.values():
+                        Em = pathsem.analyse(prog, mk)
+                        for q in Em.paths:
+                            if q.ended != 'return':
+                                continue
+                            for t_ in pathsem.subterms(q.ret):
+                                if isinstance(t_, tuple) and t_[0] == 'agg' and t_[1] == ADT and len(t_[4]) > k_:
+                                    mm = [e for e in q.calls(lambda e: e['name'] == 'merge_unchecked') if e['ret'] == S(t_[4][k_])]
+                                    per.append(sources(q, mm[0]['vals']) if mm else set())
+                    if per and all(x == {'views', 'entry'} for x in per):
+                        srcs = {'views', 'entry'}
+                    elif per:
+                        srcs = set().union(*per)
         if srcs != {'views', 'entry'}:
             once('claims', None, 'the claims returned are not the merge of the task view claims and entry-view claims (found %s)' % sorted(srcs))
     if not n_some or not n_none:
